@@ -167,10 +167,52 @@ def if_effects(R, ctx, rid="C08.if-effects"):
              "an effect in %s is %s when %s: the if-expression is treated as effect-free" % (names[x], "NOT reported" if b[0][1] is False else "not established (%s)" % b[0][2], b[0][0]))
 
 
+def number_to_string(R, ctx):
+    """`..` on a number: the text the evaluator gives is the text Lua gives, or the evaluator declines."""
+    import math
+    import struct
+    from .. import peval
+    from ..peval import Enum
+    rid = "C08.tostring"
+    lib = ctx.lib
+    R.rule(rid, "LuaValue::string_coercion (the number -> string step of `..`), evaluated from its typed tree (doubles as IEEE doubles, Rust's "
+                "float printing as in sa/floatfmt.py) on both zeros, small and large integers, fractions, 1e14/1e15/1e16 and their "
+                "neighbours, tiny and huge magnitudes, infinities and NaN: the result is either the number itself (the evaluator declines) "
+                "or exactly the string `%.14g` gives (what Lua 5.1 -- and, where it is at most 14 digits, Luau -- print); in particular "
+                "negative zero is `-0`")
+    fn = lib.fn(LV + "::string_coercion")
+    if not R.require(rid, "anchor:string_coercion", fn is not None and LV in lib.adts, "", "not found"):
+        return
+    vals = [0.0, -0.0, 1.0, -1.0, 2.0, 10.0, 33.0, -33.0, 0.5, -0.5, 0.1, 1 / 3, 1.5, 100.25, 1e5, 123456789.0, 1e13, 99999999999999.0, 1e14, 1e15, 1e16, 2.0 ** 53,
+            1e-3, 1e-4, 9.9e-5, 1e-5, 1e100, 1e-100, 5e-324, 1.7976931348623157e308, 0.1 + 0.2, 123456789012345.0, 3.14159265358979, math.inf, -math.inf, math.nan]
+    bad, n, decided = [], 0, 0
+    for x in vals:
+        pe = peval.PEval(lib, ctx.an)
+        try:
+            r = pe.call_fn(fn, [Enum(LV, "Number", {"0": x})])
+        except peval.OutOfFuel:
+            r = None
+        n += 1
+        if isinstance(r, Enum) and r.variant == "Number":
+            continue            # declines: the value stays a number (concatenation is then unknown)
+        text = r if isinstance(r, str) else None
+        if isinstance(r, Enum) and r.variant == "String":
+            v = r.fields.get("0")
+            text = bytes(v).decode("utf-8", "replace") if isinstance(v, list) and all(isinstance(b, int) for b in v) else (v if isinstance(v, str) else None)
+        want = "%.14g" % x
+        decided += 1
+        if text != want or math.isnan(x) or math.isinf(x):
+            bad.append((x, want, text if text is not None else (repr(r)[:60], pe.unknown_reasons[:2])))
+    R.ob(rid, "string_coercion|agrees-with-lua", not bad, ctx.where(fn), "%d doubles: %d converted as Lua prints them, %d declined" % (n, decided, n - decided) if not bad else
+         "%r: Lua prints %r, the evaluator gives %r" % bad[0])
+    R.require(rid, "floor:converted", decided >= 8, ctx.where(fn), "%d of %d doubles are converted" % (decided, n))
+
+
 def run(R, ctx):
     lib = ctx.lib
     float_order(R, ctx)
     if_effects(R, ctx)
+    number_to_string(R, ctx)
     R.explanation = (
         "Decision tables of the evaluator's match expressions (variant -> constant / recurse), compared with the soundness skeleton an "
         "abstract interpreter of Lua needs: opaque leaves are Unknown, calls are effectful, unknown means 'maybe metatable', multi-value "
